@@ -27,6 +27,7 @@ from ..ontomatic.property_descriptor.attribute_introspector import (
 )
 from ..singleton import SingletonMeta
 from ..utils import recursive_subclasses
+from .. import verif_hooks as _verif
 
 if TYPE_CHECKING:
     from .predicate import Symbol
@@ -220,6 +221,15 @@ class SymbolGraph(metaclass=SingletonMeta):
         self._class_to_wrapped_instances[wrapped_instance.instance_type].append(
             wrapped_instance
         )
+        if _verif.ENABLED:
+            _verif.emit(
+                "add_node",
+                graph=id(self),
+                idx=wrapped_instance.index,
+                addr=id(wrapped_instance.instance),
+                cls=wrapped_instance.instance_type.__name__,
+                n=len(self._instance_graph),
+            )
 
     def remove_node(self, wrapped_instance: WrappedInstance):
         """
@@ -232,6 +242,15 @@ class SymbolGraph(metaclass=SingletonMeta):
             wrapped_instance
         )
         self._instance_graph.remove_node(wrapped_instance.index)
+        if _verif.ENABLED:
+            _verif.emit(
+                "remove_node",
+                graph=id(self),
+                idx=wrapped_instance.index,
+                cls=wrapped_instance.instance_type.__name__,
+                dead=wrapped_instance.instance is None,
+                n=len(self._instance_graph),
+            )
 
     def remove_dead_instances(self):
         for node in self._instance_graph.nodes():
@@ -273,6 +292,8 @@ class SymbolGraph(metaclass=SingletonMeta):
 
     def clear(self) -> None:
         SingletonMeta.clear_instance(type(self))
+        if _verif.ENABLED:
+            _verif.emit("clear", graph=id(self))
 
     # Adapters to align with ORM alternative mapping expectations
     def add_instance(self, wrapped_instance: WrappedInstance) -> None:
@@ -286,6 +307,10 @@ class SymbolGraph(metaclass=SingletonMeta):
     def add_relation(self, relation: PredicateClassRelation) -> bool:
         """Add a relation edge to the instance graph."""
         if self.relation_exists(relation):
+            if _verif.ENABLED:
+                _verif.emit(
+                    "add_relation", added=False, **_verif.relation_fields(self, relation)
+                )
             return False
         self._instance_graph.add_edge(
             relation.source.index, relation.target.index, relation
@@ -295,6 +320,10 @@ class SymbolGraph(metaclass=SingletonMeta):
         self._relation_index[relation.wrapped_field].add(
             (relation.source.index, relation.target.index)
         )
+        if _verif.ENABLED:
+            _verif.emit(
+                "add_relation", added=True, **_verif.relation_fields(self, relation)
+            )
         return True
 
     def relation_exists(self, relation: PredicateClassRelation) -> bool:
